@@ -538,7 +538,7 @@ func execPlan(t *testing.T, pa any) (out core.Outcome) {
 	}
 	var g *gitRepo
 	if p.Git {
-		g, err = newGitRepo(headC.Tree)
+		g, err = newGitRepo(headC.Tree, listWT(d))
 		if err != nil {
 			out.Inconclusive = "git-scratch-repo-failed"
 			out.Message = err.Error()
@@ -781,7 +781,7 @@ func execPlan(t *testing.T, pa any) (out core.Outcome) {
 			out.Probe("git-replayed:" + op)
 		}
 
-		div, dp, isDir, msg := compareState(r.idx, r.wt, gotX, prob, gotW, p.StrictDirs)
+		div, dp, isDir, msg := compareState(r.idx, r.wt, gotX, prob, gotW, p.StrictDirs || p.Git)
 		if div != "" {
 			class := "plain"
 			if dp != "" {
